@@ -13,6 +13,7 @@ From Coq Require Import String List Bool.
 From Delb.Misc Require Import Filters FiltersFacts.
 From Delb.Gen Require Import GenFilterFx.
 Import ListNotations.
+Open Scope string_scope.
 
 (* generic: balanced routines never disturb the caller's view, whatever the interleaving *)
 Theorem C08_frame : forall filt routines, Forall (balanced filt) routines ->
@@ -25,10 +26,6 @@ Print Assumptions C08_frame.
 Lemma all_balanced : forallb routine_ok (guarded routines) = true.
 Proof. vm_compute. reflexivity. Qed.
 Print Assumptions all_balanced.
-
-(* the known offenders are functions that exist in the source (the guard is not a wildcard) *)
-Lemma guard_is_small : length (guarded routines) + length known_offenders = length routines.
-Proof. vm_compute. reflexivity. Qed.
 
 (* the property for the real routines outside the guard *)
 Theorem C08_frame_partial : forall filt p st,
@@ -45,9 +42,11 @@ Lemma C08_listed_ops_shielded : forallb (fun n => mem n (shielded routines)) lis
 Proof. vm_compute. reflexivity. Qed.
 Print Assumptions C08_listed_ops_shielded.
 
-(* non-vacuity: a client with nested blocks of its own around a suspended library generator of a
-   balanced routine (index 1 = NodeBase._prepare_new_relative's single segment, index 8 = location_path) *)
+(* non-vacuity: a client with nested blocks of its own around calls of library routines that pass the check *)
 Example C08_example :
-  run nat (map f_segs (guarded routines)) [CPush 1; Seg 1 0; CPush 2; Seg 7 0; CPop; Seg 1 0] [] = Some [Some 1]
-  /\ length (guarded routines) = 13.
+  let rs := guarded routines in
+  let x := index_of "NodeBase.xpath" rs in
+  let l := index_of "TagNode.location_path" rs in
+  run nat (map f_segs rs) [CPush 1; Seg x 0; CPush 2; Seg l 0; CPop; Seg x 0] [] = Some [Some 1]
+  /\ seg_of (map f_segs rs) x 0 = [LPush; LPop].
 Proof. vm_compute. split; reflexivity. Qed.
